@@ -660,7 +660,35 @@ func genEcsCase(r *vlib.R, emit func(string)) int {
 			emit(fmt.Sprintf("ecs clampscope %d:%s/%d %s", fam, vlib.Hex(maskBytes(base, sb)), sb, src))
 		case k < 19:
 			emit(genWireFacts(r, spec))
-		case k < 20 && r.Chance(1, 3):
+		case k < 20 && r.Chance(1, 2):
+			// two cache-missing requests for one question: hosts of one subnet, neighbours across
+			// the ceiling boundary, other family, no subnet, netmask 0, CD differing
+			base := hostNoise(r, pickV4(r))
+			if r.Chance(1, 3) {
+				base = hostNoise(r, pickV6(r))
+			}
+			other := append([]byte{}, base...)
+			fam := 4
+			if len(base) == 16 {
+				fam = 6
+			}
+			cb := min(spec.ceiling(fam), len(base)*8)
+			switch r.Intn(5) {
+			case 0:
+				other = flipBit(other, cb-1)
+			case 1:
+				other = flipBit(other, cb)
+			case 2:
+				other = hostNoise(r, other)
+			case 3:
+				other = flipBit(other, max(0, cb-3))
+			}
+			oa, ob := genECS(r, spec, base, false), genECS(r, spec, other, false)
+			if r.Chance(1, 8) {
+				ob = "-"
+			}
+			emit(fmt.Sprintf("ecs dedup %s %s %s %s %s %s", genClient(r, spec, false), oa, vlib.B(r.Chance(1, 8)), genClient(r, spec, false), ob, vlib.B(r.Chance(1, 8))))
+		case k < 20 && r.Chance(1, 2):
 			// the store's lifetime arithmetic: limits below the 5 s floor, TTLs outside the cache's bounds
 			emit(fmt.Sprintf("ecs capttl %d %d %s", vlib.Pick(r, []int{0, 1, 2, 4, 5, 6, 30, 300, 100000}),
 				vlib.Pick(r, []int{0, 1, 4, 5, 6, 29, 30, 31, 300, 86400, 86401, 200000}), vlib.B(r.Chance(2, 3))))
